@@ -122,6 +122,10 @@ def geo_cases(draw, invf_lo=150.0, invf_hi=400.0, kinds=True, max_dlon=30.0, prj
             k = draw(st.integers(0, int(round((hi - lo) / zw))))
             lon = lo + k * zw + _OFF[draw(st.integers(0, len(_OFF) - 1))]
         lon = min(max(lon, lo), math.nextafter(hi, -math.inf))
+        if kind != "isg" and not (float(zw).is_integer() and float(cm1 * 2).is_integer()):
+            # arbitrary widths / first meridians: the ends of the zoned range are themselves rounded numbers, so a longitude
+            # "on" them may lie a rounding error outside every zone; stay 1e-9 deg inside (interior limits are still hit)
+            lon = min(max(lon, lo + 1e-9), hi - 1e-9)
         zone = 0
     else:
         zs = zones_of(prj)
